@@ -2631,6 +2631,16 @@ int32 parseCertificateRequest(ssl_t *ssl,
         keySelect->peerSigAlgMask = 0xffffffff;
     }
 
+    /* An earlier CertificateRequest on this connection (e.g. the one of
+       the previous handshake when re-handshaking) may have left a CA name
+       list behind: release it before it is replaced. Its entries point
+       into the record data of that message and are stale anyway. */
+    psFree(keySelect->caNames, ssl->hsPool);
+    psFree(keySelect->caNameLens, ssl->hsPool);
+    keySelect->caNames = NULL;
+    keySelect->caNameLens = NULL;
+    keySelect->nCas = 0;
+
     /* Read certificate authority names */
     if (end - c >= 2)
     {
